@@ -30,6 +30,8 @@ POOLS = {
     # long names with blanks
     'long': [('%s is a rather long feature name with several words in it so that lines get very wide indeed' % w)
              for w in ['Alpha', 'Beta', 'Gamma', 'Delta', 'Epsilon', 'Zeta', 'Eta', 'Theta', 'Iota', 'Kappa', 'Lambda', 'Mu']],
+    # names that coincide once digit runs are read as numbers (natural-sort ties)
+    'natural': ['F1', 'F01', 'F001', 'x2', 'x02', 'a10', 'a010', 'n7', 'n07', 'n007', 'r3b', 'r03b', 'F0001', 'x002'],
     # names that look like numbers
     'numeric': ['2024', '1e3', 'nan', 'inf', '007', 'NaN', 'Infinity', '12', '9', '1_000', '0x1F', '10'],
     'punct': ['a-b', 'x:y', '#1', 'a/b', '(p)', 'a,b', 'x=y', 'a&b', 'p|q', 'ab!', 'q?r',
